@@ -155,7 +155,7 @@ def run(ctx):
     for k in range(n_nets):
         root, ncols, rs = gen_case(ctx, k)
         check_net(ctx, root, ncols, rs, n_pat, 2 if ctx.tier == 'quick' else 3, f'net{k}')
-        if len(ctx.violations) >= 3:
+        if ctx.n_new() >= 3:
             break
 
 
